@@ -181,6 +181,19 @@ func isDecodeWidth(v ssa.Value) bool {
 
 // isCursorAdvance: a call of (*Lexer).skip / (*Lexer).skipN — the only writers of Lexer.pos (C13/R1).
 func (w *World) isCursorAdvance(in ssa.Instruction) bool {
+	if st, ok := in.(*ssa.Store); ok {
+		// l.pos = l.pos + k (k > 0), e.g. `l.pos++` written without the helper
+		if fa, ok := st.Addr.(*ssa.FieldAddr); ok && fieldAddrName(fa) == "pos" && w.isLexerPtr(fa.X.Type()) {
+			if bo, ok := st.Val.(*ssa.BinOp); ok && bo.Op == token.ADD {
+				if f, _, ok := w.lexerField(bo.X); ok && f == "pos" {
+					if k, ok := constInt(bo.Y); ok && k > 0 {
+						return true
+					}
+				}
+			}
+		}
+		return false
+	}
 	call, ok := in.(*ssa.Call)
 	if !ok {
 		return false
